@@ -110,7 +110,9 @@ PROPS["C07"] = dict(
           "fee without change, first guess, fee+dust} +- {0,1,dust,...}, delivered by copies of wallet.makeInputSource (generated order) or constantInputSource, four change "
           "script types. Every success is signed, measured with mempool.GetTxVirtualSize and verified with StandardVerifyFlags. Non-trivial = success with >=2 input types or "
           ">=252 outputs or leftover within 2 dust thresholds of the zero-change boundary; or an insufficiency (justified or not) within 2x required fee of the boundary. "
-          "Distinct = fingerprint of the rendered case."),
+          "Distinct = fingerprint of the rendered case. Wallet-level unit: a complete wallet funded with coins of every type and many sizes creates signed transactions through "
+          "Wallet.CreateSimpleTx (scope nil or one of four, 8 fee rates, largest/random selection, amounts leaving little or no change); inputs are valued from the harness ledger, the real signed "
+          "virtual size is measured, and conservation, requested outputs (as a multiset: the wallet randomises the change position), lower and upper fee bound and the dust rule are checked."),
     assumptions=["requested outputs pass txrules.CheckOutput at DefaultRelayFeePerKb as wallet.sendOutputs / FundPsbt enforce (non-dust, OP_RETURN any value >= 0)",
                  "compressed keys only (author.go BUGS: uncompressed P2PKH out of scope); P2SH coins are P2SH-P2WPKH, P2TR coins are BIP86 key-spend",
                  "input sources behave like wallet.makeInputSource / constantInputSource (re-implemented in the harness because they are unexported); coin values >= 1",
@@ -118,6 +120,7 @@ PROPS["C07"] = dict(
                  "coins covering only the fee of the change-less transaction are counted as an observation class, not asserted",
                  "upper bound uses the code base's own txsizes.EstimateVirtualSize as 'the worst-case size estimate'"],
     units=[dict(name="author", run="^TestC07Author$", quick=10000, thorough=30000, shards_quick=1, shards_thorough=16),
+           dict(name="wallet", run="^TestC07WalletLevel$", quick=400, thorough=1500, shards_quick=1, shards_thorough=16, timeout=1500),
            dict(name="regress", kind="plain", run="^TestC07Regress", quick=None, thorough=None),
            dict(name="fuzz", kind="fuzz", run="^FuzzC07$", tiers=["thorough"], thorough="120s", timeout=600)],
 )
